@@ -138,6 +138,7 @@ type c20Entry struct {
 	k, v    uint64 // 60-bit digests (v = 0 for an empty value)
 	trailID uint64 // trailing 8 bytes of the key, big endian (ids are stored that way)
 	u64     int64  // value decoded as a protobuf UInt64Value, -1 when it is not one
+	klen    int    // length of the key
 }
 
 func c20Hash(bz []byte) uint64 {
@@ -151,7 +152,7 @@ func c20Dump(a *chain.App, ctx sdk.Context, store string) map[int][]c20Entry {
 	defer it.Close()
 	for ; it.Valid(); it.Next() {
 		k, v := it.Key(), it.Value()
-		e := c20Entry{k: c20Hash(k), u64: -1}
+		e := c20Entry{k: c20Hash(k), u64: -1, klen: len(k)}
 		if len(v) > 0 {
 			e.v = c20Hash(v)
 		}
